@@ -14,9 +14,9 @@ PROPERTY = "C16"
 LEVEL = "exploration"
 RULE = ("case = (shared configuration {key_prefix bytes/str, default_noreply, encoding, allow_unicode_keys, serde in "
         "none/json/pickle/compressed, connect_timeout, timeout, no_delay, socket_keepalive, TLS}, server state in "
-        "hit/numeric-hit/miss, one key-addressed call: required arguments positionally, optional ones (expire, noreply, "
+        "hit/numeric-hit/miss/a hit whose value is falsy (b'' without a serializer, None as the serializer stores it with one), one key-addressed call: required arguments positionally, optional ones (expire, noreply, "
         "flags, default, cas_default) by keyword, get's default also positionally; cas with matching / stale token; "
-        "incr on numeric / non-numeric / missing; multi-key calls with repeated keys and with the key collection given as tuple, dict view or a one-shot iterable (iterator, generator, map object); illegal keys; str values only some encodings can encode). The call is "
+        "incr on numeric / non-numeric / missing; optional arguments passed by keyword or by position (in the order Client documents); multi-key calls with repeated keys and with the key collection given as tuple, dict view or a one-shot iterable (iterator, generator, map object); illegal keys; str values only some encodings can encode). The call is "
         "run on a fresh stack of each kind - Client (reference), PooledClient, HashClient([server]) with use_pooling "
         "off and on, RetryingClient(Client, attempts=1), and attempts=3 when the reference call succeeds - each over "
         "its own fake network and memcached model in the same state. Oracle (differential): identical parsed command "
@@ -73,12 +73,13 @@ def preload(env, cfg, state):
     srv = env.server
     p = cfg.get("key_prefix", b"")
     p = p.encode("ascii") if isinstance(p, str) else p
-    if state in ("hit", "numeric"):
-        val = b"10" if state == "numeric" else b"value"
+    if state in ("hit", "numeric", "none"):
+        # "none": the item exists and its value is falsy - b"" without a serializer, None (as the serializer stores it) with one
+        val = b"10" if state == "numeric" else b"value" if state == "hit" else b""
         flags = 0
         spec = cfg.get("serde")
         if spec is not None:
-            payload, flags = c04.make_serde(spec).serialize("k", "value" if state == "hit" else 10)
+            payload, flags = c04.make_serde(spec).serialize("k", "value" if state == "hit" else 10 if state == "numeric" else None)
             val = payload if isinstance(payload, bytes) else str(payload).encode("ascii")
             if state == "numeric":
                 val, flags = b"10", flags    # counters live as text
@@ -247,6 +248,20 @@ CALLS = [
     {"op": "delete", "key": "k", "noreply": False},
     {"op": "delete_many", "keys": ["k", "j"], "noreply": False},
     {"op": "delete_many", "keys": []},
+    # optional arguments by position, in the order Client documents them
+    {"op": "gat", "key": "k", "expire": 60, "positional": True},
+    {"op": "gat", "key": "zz", "expire": 60, "default": "D", "positional": True},
+    {"op": "gats", "key": "k", "expire": 7, "positional": True},
+    {"op": "gats", "key": "zz", "expire": 0, "default": "D", "cas_default": "C", "positional": True},
+    {"op": "gets", "key": "zz", "default": "D", "cas_default": "C", "positional": True},
+    {"op": "set", "key": "k", "value": "v", "expire": 9, "noreply": False, "flags": 3, "positional": True},
+    {"op": "add", "key": "zz", "value": "v", "expire": 9, "positional": True},
+    {"op": "cas", "key": "k", "value": "v", "cas": b"1", "expire": 5, "noreply": False, "positional": True},
+    {"op": "touch", "key": "k", "expire": 30, "noreply": False, "positional": True},
+    {"op": "delete", "key": "k", "noreply": False, "positional": True},
+    {"op": "incr", "key": "k", "delta": 3, "noreply": True, "positional": True},
+    {"op": "set_many", "values": {"k": "1", "j": "2"}, "expire": 3, "noreply": False, "positional": True},
+    {"op": "delete_many", "keys": ["k", "j"], "noreply": False, "positional": True},
     {"op": "get_many", "keys": ["k", "j", "zz"], "keys_as": "generator"},
     {"op": "gets_many", "keys": ["k", "j"], "keys_as": "iter"},
     {"op": "get_many", "keys": ["k", "j"], "keys_as": "map"},
@@ -288,7 +303,7 @@ CFGS = [
 
 def grid_cases(tier, seed):
     for cfg in CFGS:
-        for state in ("hit", "numeric", "miss"):
+        for state in ("hit", "numeric", "miss", "none"):
             for r in CALLS:
                 yield {"cfg": cfg, "state": state, "op": r}
 
@@ -317,7 +332,8 @@ def random_strategy(tier):
         return st.fixed_dictionaries({}, optional=d)
 
     def mk(base, d):
-        return st.builds(lambda b, o: dict(b, **o), base, opt(d))
+        # the optional arguments are passed by keyword or - every third time - by position, in Client's documented order
+        return st.builds(lambda b, o, pos: dict(b, **o, **({"positional": True} if pos and o else {})), base, opt(d), st.sampled_from([False, False, True]))
     store = mk(st.fixed_dictionaries({"op": st.sampled_from(list(ops.STORE_OPS)), "key": key, "value": value}),
                {"expire": expire, "noreply": noreply, "flags": flags})
     cas = mk(st.fixed_dictionaries({"op": st.just("cas"), "key": key, "value": value, "cas": st.sampled_from([b"1", "1", 1, 99, "x", b"", None])}),
@@ -344,7 +360,7 @@ def random_strategy(tier):
                {"noreply": noreply})
     touch = mk(st.fixed_dictionaries({"op": st.just("touch"), "key": key}), {"expire": expire, "noreply": noreply})
     op = st.one_of(store, cas, get, gets, gat, gats, many, delmany, setmany, delete, arith, touch)
-    return st.fixed_dictionaries({"cfg": cfg, "state": st.sampled_from(["hit", "numeric", "miss"]), "op": op})
+    return st.fixed_dictionaries({"cfg": cfg, "state": st.sampled_from(["hit", "numeric", "miss", "none"]), "op": op})
 
 
 ERR_CALLS = [c for c in CALLS if c["op"] in ("incr", "decr") or c.get("key") == "bad key" or c.get("expire") in ("x", None) and "expire" in c or c.get("delta") == "x"]
@@ -354,7 +370,7 @@ FOLLOW_CALLS = [CALLS[0], CALLS[13], CALLS[16], CALLS[24], CALLS[27], CALLS[30],
 def sequence_cases(tier, seed):
     """an error-provoking call followed by ordinary calls on the same object (state carried by the wrapper must not leak)"""
     for cfg in (CFGS[0], CFGS[3], CFGS[7]):
-        for state in ("hit", "numeric", "miss"):
+        for state in ("hit", "numeric", "miss", "none"):
             for e in ERR_CALLS:
                 for f in FOLLOW_CALLS:
                     yield {"cfg": cfg, "state": state, "ops": [e, f]}
@@ -379,3 +395,12 @@ PARTS = [
 
 def selftest():
     mcserver.selftest()
+    # the positional calling convention used by vlib/ops.py is the one Client and PooledClient document
+    import inspect
+    from pymemcache.client.base import Client, PooledClient
+    for op, (lead, optl) in ops.POSITIONAL.items():
+        for cls in (Client, PooledClient):
+            ps = list(inspect.signature(getattr(cls, op)).parameters.values())[1:]
+            want = [{"delta": "value"}.get(n, n) for n in lead] + [n for n, _ in optl]
+            if [p_.name for p_ in ps] != want or [p_.default for p_ in ps][len(lead):] != [d for _, d in optl]:
+                raise AssertionError("%s.%s%r is not %r" % (cls.__name__, op, [p_.name for p_ in ps], want))
